@@ -358,6 +358,49 @@ def lower_int_conversions(rec, stats):
     return changed
 
 
+DATAVEC_CAP = "util::data_vec::DataVec::<T, N>::capacity"
+ARRAYVEC_CAP = "tinyvec::ArrayVec::<A>::capacity"
+
+
+def _capacity_is_array_len(recs):
+    """DataVec::capacity is nothing but the capacity of the wrapped ArrayVec<[T; N]> - which tinyvec defines as the array length N"""
+    g = recs.get(DATAVEC_CAP)
+    if g is None:
+        return False
+    calls = [b["term"] for b in g["blocks"] if b["term"]["k"] == "call"]
+    if len(calls) != 1 or (calls[0].get("resolved") or calls[0].get("callee")) != ARRAYVEC_CAP or calls[0]["dest"] != {"local": 0, "proj": []}:
+        return False
+    ca = calls[0].get("cargs") or []
+    return len(ca) == 1 and ca[0].get("k") == "array" and ca[0].get("len") == "N" and all(not b["stmts"] or all(s_["k"] != "assign" or s_["place"]["local"] != 0
+                                                                                                   for s_ in b["stmts"]) for b in g["blocks"])
+
+
+def lower_capacity(rec, recs, stats):
+    """`v.capacity()` of a DataVec<T, N> / ArrayVec<[T; N]> with a literal N: the constant N"""
+    changed = False
+    for blk in rec["blocks"]:
+        t = blk["term"]
+        if t["k"] != "call" or t.get("target") is None or t["dest"]["proj"] or len(t.get("args", [])) != 1:
+            continue
+        c = t.get("resolved") or t.get("callee")
+        ca = t.get("cargs") or []
+        n = None
+        if c == DATAVEC_CAP and len(ca) == 2 and ca[1].get("k") == "const" and isinstance(ca[1].get("val"), int) and _capacity_is_array_len(recs):
+            n = ca[1]["val"]
+        elif c == ARRAYVEC_CAP and len(ca) == 1 and ca[0].get("k") == "array" and isinstance(ca[0].get("len"), int) and rec["path"] != DATAVEC_CAP:
+            n = ca[0]["len"]
+        if n is None:
+            continue
+        usz = {"k": "uint", "bits": 64, "name": "usize"}
+        blk["stmts"] = list(blk["stmts"]) + [{"k": "assign", "place": copy.deepcopy(t["dest"]),
+                                             "rv": {"k": "use", "op": {"k": "const", "ty": usz, "bits": n, "val": n, "size": 8}}, "line": t.get("line")}]
+        blk["term"] = {"k": "goto", "target": t["target"]}
+        changed = True
+    if changed:
+        stats.setdefault(rec["path"], []).append("capacity-const")
+    return changed
+
+
 def reresolve(rec, stats):
     """After a generic helper was inlined with its type parameters substituted, trait calls on the now concrete iterator type get the path rustc
     would have resolved them to (`Iterator::next` on `Chars`), and `into_iter` of an iterator is the identity."""
@@ -2736,6 +2779,8 @@ def apply(prog):
                         touched.add(p)
     for p, rec in recs.items():
         if lower_int_conversions(rec, stats):
+            touched.add(p)
+        if lower_capacity(rec, recs, stats):
             touched.add(p)
     for p, rec in recs.items():
         for _ in range(6):
